@@ -45,6 +45,28 @@ type dkgRun struct {
 	// reorder: deliver any message of the chosen link, not only its oldest (the reliable broadcast does not order a
 	// sender's consecutive broadcasts: a key may overtake its commitment)
 	reorder bool
+	// overtake: on this link (sender, receiver) the sender's commitment is kept back until its key is queued behind it, and
+	// the key is then delivered first — the overtaking that `reorder` only produces by chance. Zero value: none.
+	overtake     [2]uint16
+	overtakeDone bool // the key went first; the link is ordinary again
+}
+
+func onlyKind(q []wireMsg, kind byte) bool {
+	for _, m := range q {
+		if len(m.data) == 0 || m.data[0] != kind {
+			return false
+		}
+	}
+	return true
+}
+
+func hasKind(q []wireMsg, kind byte) int {
+	for i, m := range q {
+		if len(m.data) > 0 && m.data[0] == kind {
+			return i
+		}
+	}
+	return -1
 }
 
 func newBackend(kind string, id uint16, msgLen int) tss.KeyGenerator {
@@ -139,6 +161,9 @@ func (d *dkgRun) run(r *prng.R, active []uint16, timeout time.Duration) {
 		var links [][2]uint16
 		for k, q := range d.queues {
 			if len(q) > 0 && (d.hold == nil || !d.hold(q[0])) {
+				if k == d.overtake && !d.overtakeDone && ctx.Err() == nil && hasKind(q, 3) < 0 && onlyKind(q, 2) {
+					continue // only the commitment is there: wait for the key
+				}
 				links = append(links, k)
 			}
 		}
@@ -159,6 +184,19 @@ func (d *dkgRun) run(r *prng.R, active []uint16, timeout time.Duration) {
 		idx := 0
 		if d.reorder {
 			idx = r.Intn(len(d.queues[k]))
+		}
+		if k == d.overtake && !d.overtakeDone && hasKind(d.queues[k], 2) >= 0 {
+			if i3 := hasKind(d.queues[k], 3); i3 >= 0 {
+				idx = i3 // the key first
+				d.overtakeDone = true
+			} else if ctx.Err() == nil {
+				for i, m := range d.queues[k] { // anything but the commitment
+					if len(m.data) == 0 || m.data[0] != 2 {
+						idx = i
+						break
+					}
+				}
+			}
 		}
 		m := d.queues[k][idx]
 		d.queues[k] = append(append([]wireMsg{}, d.queues[k][:idx]...), d.queues[k][idx+1:]...)
